@@ -104,16 +104,23 @@ class Url:
             rest = raw[len(SLASH + SLASH):]
         if scheme is not None or starts_with_double_slash:
             assert rest is not None
-            parts = rest.split(SLASH, 1)
-            username, password, host, port = Url._parse(parts[0])
+            # Authority ends at the first slash, question mark or hash
+            # e.g. http://host:80?query has an empty path
+            end = len(rest)
+            for delim in (SLASH, b'?', b'#'):
+                at = rest.find(delim)
+                if at != -1:
+                    end = min(end, at)
+            authority, remainder = rest[:end], rest[end:]
+            username, password, host, port = Url._parse(authority)
             return cls(
                 scheme=scheme if not starts_with_double_slash else b'http',
                 username=username,
                 password=password,
                 hostname=host,
                 port=port,
-                remainder=None if len(parts) == 1 else (
-                    SLASH + parts[1]
+                remainder=None if remainder == b'' else (
+                    remainder if remainder.startswith(SLASH) else SLASH + remainder
                 ),
             )
         username, password, host, port = Url._parse(raw)
